@@ -5,6 +5,7 @@ import (
 	"encoding/hex"
 	"fmt"
 	"os"
+	"reflect"
 	"sort"
 	"testing"
 	"time"
@@ -66,16 +67,18 @@ type iterState struct {
 }
 
 type runner struct {
-	c        *Case
-	disk     *simdisk.Disk
-	model    *Model
-	out      *RunOut
-	db       *leveldb.DB
-	knobs    Knobs
-	mon      *monitor
-	faulty   bool // faults or crashes are part of this case
-	heldVals []heldVal
-	noScrib  bool
+	c         *Case
+	disk      *simdisk.Disk
+	model     *Model
+	out       *RunOut
+	db        *leveldb.DB
+	knobs     Knobs
+	mon       *monitor
+	faulty    bool // faults or crashes are part of this case
+	heldVals  []heldVal
+	lastOpts  *opt.Options
+	lastKnobs Knobs
+	noScrib   bool
 
 	pos           int // next op index of the sequential client
 	crashed       bool
@@ -231,7 +234,15 @@ func (r *runner) nontrivial() bool {
 // ---- open / close ----
 
 func (r *runner) open(recoverMode bool) error {
-	o := r.knobs.Options()
+	// like an application, keep using one Options value for as long as the
+	// settings stay the same (Open, reopen, Recover): the DB must not have
+	// changed it in a way that matters to the next session
+	if r.lastOpts == nil || !reflect.DeepEqual(r.lastKnobs, r.knobs) {
+		r.lastOpts, r.lastKnobs = r.knobs.Options(), r.knobs
+	} else {
+		r.probe("options-value-reused")
+	}
+	o := r.lastOpts
 	var db *leveldb.DB
 	var err error
 	simrt.SetOp("Open")
